@@ -10,7 +10,7 @@ INV = "INVARIANTS RefCount NoLeak NoDangling EmptyAtEnd NullNeverCounted TypeOK 
 
 
 def cfg(name, slots, fams, depth, emit=True, ops=("all",)):
-    path = os.path.join(vlib.SPEC, "gen_Lifetime_%s.cfg" % name)
+    path = os.path.join(vlib.SPEC, "gen_Lifetime_%s_%d.cfg" % (name, os.getpid()))     # (own name per process: checks may run side by side)
     with open(path, "w") as f:
         f.write("SPECIFICATION Spec\nCONSTANTS Slots = {%s} Fams = {%s} Depth = %d EmitOn = %s Ops = {%s}\n%s" % (
             ",".join(str(s) for s in slots), ",".join('"%s"' % x for x in fams), depth, "TRUE" if emit else "FALSE",
@@ -28,16 +28,21 @@ def sig(c, r):
 
 
 def run(chk):
-    # the parallel-shutdown part (mpirun jobs, mostly waiting) runs next to everything else; it is accounted for at the end
-    finex = cf.ThreadPoolExecutor(max_workers=1)
+    # the parallel-shutdown part (mpirun jobs, mostly waiting) and - in the quick tier - the large-count part run next to
+    # everything else (the latter records into a Check object of its own); both are accounted for at the end
+    finex = cf.ThreadPoolExecutor(max_workers=2)
     finfut = finex.submit(c20b.fin_collect, chk.tier)
+    bulk = None
+    if chk.tier != "thorough":
+        sub = vlib.Check(chk.pid, level=chk.level, tier=chk.tier)
+        bulk = (sub, finex.submit(c20b.run_bulk, sub))
     try:
-        _run(chk, finfut)
+        _run(chk, finfut, bulk)
     finally:
         finex.shutdown(wait=True)
 
 
-def _run(chk, finfut):
+def _run(chk, finfut, bulk):
     binary, = vlib.build(["c20_lifetime"], variant="asan")
     thorough = chk.tier == "thorough"
     jobs = []
@@ -53,30 +58,51 @@ def _run(chk, finfut):
                  ("layout5", cfg("layout5", (1, 2, 3), ("csr",), 5, ops=("create", "layout", "destroy")), {}),
                  ("rangemove4", cfg("rangemove4", (1, 2, 3), ("dv",), 4, ops=("create", "range", "move", "destroy")), {}),
                  ("sim", cfg("sim", (1, 2, 3), ("dv", "csr"), 9), dict(simulate=1500, depth=10, tseed=vlib.seed()))]
-    cases = []
-    with cf.ThreadPoolExecutor(max_workers=4) as ex:
-        futs = [(ex.submit(vlib.tlc, "Lifetime", c, workers=(1 if kw else 3), timeout=3000, xmx="4g", **kw), nm, c) for nm, c, kw in jobs]
-        for f, nm, c in futs:
+    # the behaviours of a run are replayed and dropped as soon as the run is complete (and the raw TLC output is dropped at once):
+    # memory stays bounded by the largest runs instead of the sum of all
+    keyf = lambda c: json.dumps([[s["op"], s["args"]] for s in c["steps"]], sort_keys=True)
+    ntriv = lambda c: any(s["op"] in ("clone", "convert", "move", "movector", "range", "fromlayout") for s in c["steps"])
+
+    def tlc_run(c, kw):
+        r = vlib.tlc("Lifetime", c, workers=(1 if kw else 3), timeout=3000, xmx="4g", **kw)
+        if not r.violation:
+            r.out = ""
+        return r
+    total, msamples = 0, []
+    with cf.ThreadPoolExecutor(max_workers=3) as ex:
+        futs = {ex.submit(tlc_run, c, kw): (nm, c) for nm, c, kw in jobs}
+        for f in cf.as_completed(list(futs)):
+            nm, c = futs.pop(f)
             r = f.result()
             chk.add_tlc(r, nm)
             if r.violation:
                 chk.model_violation(r, "Lifetime.tla invariant (%s)" % nm)
-            cases.extend(r.printed)
+            cases, r.printed = r.printed, None
             try:
                 os.remove(os.path.join(vlib.SPEC, c))
             except OSError:
                 pass
-    if not cases:
+            del f, r
+            if not cases:
+                continue
+            res = vlib.run_cases(binary, cases, tmo=30)
+            vlib.judge_results(chk, cases, res, sig, keyf=keyf, harness="c20_lifetime", nontrivial=ntriv)
+            total += len(cases)
+            if len(msamples) < 2:
+                msamples.append([[s["op"], s["args"]] for s in cases[len(cases) // 2]["steps"]])
+            del cases, res
+    if not total:
         raise vlib.MachineryError("no behaviours generated")
-    res = vlib.run_cases(binary, cases, tmo=30)
-    vlib.judge_results(chk, cases, res, sig, keyf=lambda c: json.dumps([[s["op"], s["args"]] for s in c["steps"]], sort_keys=True),
-                       harness="c20_lifetime", nontrivial=lambda c: any(s["op"] in ("clone", "convert", "move", "movector", "range", "fromlayout") for s in c["steps"]))
-    chk.traces = len(cases)
+    chk.traces = total
     # extension to all container families (spec/LifetimeX.tla, harness/c20x_lifetime.cpp, lib/c20x.py); adds to chk.traces
     xsamples = c20x.run_ext(chk)
     # large counts (spec/LifetimeBulk.tla, harness/c20_bulk.cpp) and Runtime::finalize on every rank of an MPI job
     # (spec/LifetimeFin.tla, harness/c20_mpifin.cpp); lib/c20b.py
-    bsamples = c20b.run_bulk(chk)
+    if bulk is None:
+        bsamples = c20b.run_bulk(chk)
+    else:
+        bsamples = bulk[1].result()
+        c20b.merge(chk, bulk[0])
     fsamples = c20b.fin_account(chk, finfut.result())
     chk.exhaustive = True
     chk.rule = ("all histories of spec/Lifetime.tla up to the stated depth over 2-3 container slots (create in every shape incl. size-0 "
@@ -85,8 +111,8 @@ def _run(chk, finfut):
                 "each replayed on real containers in the ASan/UBSan build with reference counters, aliasing classes, sizes, contents and "
                 "live chunk count compared after every step; non-trivial = contains a sharing/moving operation; distinct = distinct history.  "
                 "Extension: " + c20x.RULE + ".  " + c20b.RULE)
-    for c in cases[len(cases) // 2: len(cases) // 2 + 2]:
-        chk.sample([[s["op"], s["args"]] for s in c["steps"]])
+    for smp in msamples:
+        chk.sample(smp)
     for smp in xsamples[:1] + bsamples[2:3] + fsamples[:1]:
         chk.sample(smp)
     chk.assumptions = list(c20x.ASSUMPTIONS) + list(c20b.ASSUMPTIONS) + ["heap safety inside an operation is observed by ASan/UBSan on the replayed histories, not proved",
